@@ -1,6 +1,7 @@
 package bridge
 
 import (
+	"strings"
 	"fmt"
 	"math"
 	"time"
@@ -29,7 +30,16 @@ func NewRef(f *schema.File) (*Ref, error) {
 }
 
 func (r *Ref) MsgDesc(name string) protoreflect.MessageDescriptor {
-	return r.Desc.Messages().ByName(protoreflect.Name(name))
+	// nested declarations: walk the dotted proto path
+	parts := strings.Split(r.File.ProtoPath(name), ".")
+	md := r.Desc.Messages().ByName(protoreflect.Name(parts[0]))
+	for _, p := range parts[1:] {
+		if md == nil {
+			return nil
+		}
+		md = md.Messages().ByName(protoreflect.Name(p))
+	}
+	return md
 }
 
 func (r *Ref) New(name string) *dynamicpb.Message { return dynamicpb.NewMessage(r.MsgDesc(name)) }
